@@ -727,12 +727,142 @@ func ruleTypeSwitch(c *RC) *RuleResult {
 				return true
 			})
 		}
+		// ... and a field that notes down a property of the payload's envelope (`F: p.ViewNumber()`) is put back into
+		// that property of the rebuilt payload: what is unpacked is packed again when the receiver relays it in its own
+		// recovery message, so a ChangeView that comes out with the recovery message's view instead of its own goes out
+		// one view higher at every hop
+		packedFrom := map[string]map[string]string{} // compact type -> field -> envelope getter it was taken from
+		for _, mem := range c.clusterFns(add) {
+			minfo := mem.Pkg.TypesInfo
+			if len(add.Params) != 1 {
+				break
+			}
+			ast.Inspect(mem.Decl.Body, func(n ast.Node) bool {
+				cl, ok := n.(*ast.CompositeLit)
+				if !ok {
+					return true
+				}
+				tn := namedName(minfo.TypeOf(cl))
+				if !strings.HasSuffix(tn, "Compact") {
+					return true
+				}
+				for _, el := range cl.Elts {
+					kv, ok := el.(*ast.KeyValueExpr)
+					if !ok {
+						continue
+					}
+					key, _ := kv.Key.(*ast.Ident)
+					call, _ := ast.Unparen(kv.Value).(*ast.CallExpr)
+					if key == nil || call == nil || len(call.Args) != 0 {
+						continue
+					}
+					if sel, ok := ast.Unparen(call.Fun).(*ast.SelectorExpr); ok {
+						if id, ok := ast.Unparen(sel.X).(*ast.Ident); ok && minfo.Uses[id] == types.Object(add.Params[0]) {
+							if packedFrom[tn] == nil {
+								packedFrom[tn] = map[string]string{}
+							}
+							packedFrom[tn][key.Name] = sel.Sel.Name
+						}
+					}
+				}
+				return true
+			})
+		}
+		// envelope getters / setters of the reference payload: `func (…) G() T { return recv.f }`, `func (…) S(x T) { recv.f = x }`
+		getterField, setterField := map[string]string{}, map[string]string{}
+		for _, fn := range c.Prog.sortedFuncs() {
+			if fn.Pkg.PkgPath != consPath || fn.Decl == nil || fn.Decl.Body == nil || fn.RecvVar == nil || len(fn.Decl.Body.List) != 1 {
+				continue
+			}
+			if fn.Recv != "Payload" && fn.Recv != "message" {
+				continue
+			}
+			switch st := fn.Decl.Body.List[0].(type) {
+			case *ast.ReturnStmt:
+				if len(st.Results) == 1 && len(fn.Params) == 0 {
+					if sel, ok := ast.Unparen(st.Results[0]).(*ast.SelectorExpr); ok {
+						if id, ok := ast.Unparen(sel.X).(*ast.Ident); ok && fn.Pkg.TypesInfo.Uses[id] == types.Object(fn.RecvVar) {
+							getterField[fn.Decl.Name.Name] = sel.Sel.Name
+						}
+					}
+				}
+			case *ast.AssignStmt:
+				if len(st.Lhs) == 1 && len(st.Rhs) == 1 && len(fn.Params) == 1 {
+					if sel, ok := ast.Unparen(st.Lhs[0]).(*ast.SelectorExpr); ok {
+						if rid, ok := ast.Unparen(st.Rhs[0]).(*ast.Ident); ok && fn.Pkg.TypesInfo.Uses[rid] == types.Object(fn.Params[0]) {
+							setterField[fn.Decl.Name.Name] = sel.Sel.Name
+						}
+					}
+				}
+			}
+		}
+		mentions := func(info *types.Info, e ast.Expr, tn, f string) bool {
+			found := false
+			ast.Inspect(e, func(n ast.Node) bool {
+				if sel, ok := n.(*ast.SelectorExpr); ok && sel.Sel.Name == f {
+					if sl := info.Selections[sel]; sl != nil && sl.Kind() == types.FieldVal && namedName(sl.Recv()) == tn {
+						found = true
+					}
+				}
+				return !found
+			})
+			return found
+		}
 		for g := range map[string]bool{"GetPrepareResponses": true, "GetChangeViews": true, "GetPreCommits": true, "GetCommits": true} {
 			fn := c.recoveryImpl(g)
 			if fn == nil {
 				continue
 			}
 			ginfo := fn.Pkg.TypesInfo
+			for tn, fs := range packedFrom {
+				var names []string
+				for f := range fs {
+					names = append(names, f)
+				}
+				sort.Strings(names)
+				for _, f := range names {
+					envField := getterField[fs[f]]
+					if envField == "" {
+						continue
+					}
+					usesType, putBack := false, false
+					for _, mem := range c.clusterFns(fn) {
+						minfo := mem.Pkg.TypesInfo
+						ast.Inspect(mem.Decl.Body, func(n ast.Node) bool {
+							switch x := n.(type) {
+							case *ast.SelectorExpr:
+								if sl := minfo.Selections[x]; sl != nil && sl.Kind() == types.FieldVal && namedName(sl.Recv()) == tn {
+									usesType = true
+								}
+							case *ast.AssignStmt:
+								for i, lhs := range x.Lhs {
+									if sel, ok := ast.Unparen(lhs).(*ast.SelectorExpr); ok && sel.Sel.Name == envField && i < len(x.Rhs) && mentions(minfo, x.Rhs[i], tn, f) {
+										putBack = true
+									}
+								}
+							case *ast.CallExpr:
+								if sel, ok := ast.Unparen(x.Fun).(*ast.SelectorExpr); ok && setterField[sel.Sel.Name] == envField && len(x.Args) == 1 && mentions(minfo, x.Args[0], tn, f) {
+									putBack = true
+								}
+							case *ast.KeyValueExpr:
+								if id, ok := x.Key.(*ast.Ident); ok && id.Name == envField && mentions(minfo, x.Value, tn, f) {
+									putBack = true
+								}
+							}
+							return true
+						})
+					}
+					if !usesType {
+						continue
+					}
+					r.Sites++
+					if putBack {
+						r.ok(fmt.Sprintf("%s: %s.%s (taken from the payload's %s()) is put back into the rebuilt payload's %s", g, tn, f, fs[f], envField))
+					} else {
+						r.fail("recoveryMessage."+g+"/compact-roundtrip:"+f, c.Prog.Pos(fn.Decl), fmt.Sprintf("AddPayload notes the payload's %s() down in %s.%s, but %s does not give it back to the rebuilt payload's %s: the payload comes out with the recovery message's value, and when its receiver relays it in a recovery message of its own that value is packed as the original — for a ChangeView the requested view grows by one at every hop, and nodes enter a view nobody asked for", fs[f], tn, f, g, envField))
+					}
+				}
+			}
 			read := map[string]map[string]bool{}
 			for _, mem := range c.clusterFns(fn) {
 				ast.Inspect(mem.Decl.Body, func(n ast.Node) bool {
